@@ -7,10 +7,12 @@
     libhdf5 refuses to open).
 
     [dump_ops] is the sequence of storage-library calls issued by [HDF5Signatures.create]
-    (hdf5.py:129-173,213-218): [AttributeManager.__setitem__], [Group.create_dataset] and
-    [Dataset.__setitem__] -- exactly the three entry points the C19 harness intercepts.
+    (hdf5.py:130-172,214-221): [AttributeManager.__setitem__], [Group.create_dataset] and
+    [Dataset.__setitem__] -- exactly the three entry points the C19 harness intercepts.  The format
+    marker [gambit_signatures_version] is the LAST call (repo_fixes/C19-marker-last.diff);
+    [dump_ops_v0] is the order of the code as found (marker first), kept for the [_refuted] theorems.
     [load] follows [HDF5Signatures.__init__] (hdf5.py:91-112), [load_file_*] follows
-    [load_signatures_hdf5] (hdf5.py:221-254).  No proofs in this file. *)
+    [load_signatures_hdf5] (hdf5.py:226-259).  No proofs in this file. *)
 From Coq Require Import ZArith List Bool.
 Import ListNotations.
 Open Scope Z_scope.
@@ -166,11 +168,10 @@ Fixpoint sig_writes (off : Z) (sigs : list (list Z)) : list op :=
   | s :: r => OWrite DValues off (off + zlen s) s :: sig_writes (off + zlen s) r
   end.
 
-(** [_init_attrs] + [write_metadata] (hdf5.py:37-48,129-137) *)
+(** [_init_attrs] + [write_metadata] (hdf5.py:37-48,130-136): every attribute but the format marker *)
 Definition attr_ops (c : coll) : list op :=
   let m := c.(c_meta) in
-  [ OSetAttr KMarker (AInt 1);
-    OSetAttr KK (AInt c.(c_k));
+  [ OSetAttr KK (AInt c.(c_k));
     OSetAttr KPrefix (AStr c.(c_prefix));
     OSetAttr KId (o2a m.(m_id));
     OSetAttr KName (o2a m.(m_name));
@@ -179,7 +180,7 @@ Definition attr_ops (c : coll) : list op :=
     OSetAttr KDesc (o2a m.(m_desc));
     OSetAttr KExtra (o2a m.(m_extra)) ].
 
-(** [_init_datasets] (hdf5.py:139-173) *)
+(** [_init_datasets] (hdf5.py:139-172) *)
 Definition data_ops (p : wpath) (c : coll) : list op :=
   let sigs := c.(c_sigs) in
   OCreate DIds (ids_dset c.(c_ids)) ::
@@ -192,11 +193,25 @@ Definition data_ops (p : wpath) (c : coll) : list op :=
         OCreateZero DValues c.(c_ty) (total_of sigs) ] ++ sig_writes 0 sigs
   end.
 
-Definition dump_ops (p : wpath) (c : coll) : list op := attr_ops c ++ data_ops p c.
+(** [group.attrs['gambit_signatures_version'] = 1]: the call that turns the group into a signature set *)
+Definition marker_op : op := OSetAttr KMarker (AInt 1).
+
+(** everything [create] writes before the marker *)
+Definition body_ops (p : wpath) (c : coll) : list op := attr_ops c ++ data_ops p c.
+
+(** the calls of one write, in the order of the repaired code: attributes, datasets, the marker LAST *)
+Definition dump_ops (p : wpath) (c : coll) : list op := body_ops p c ++ [marker_op].
+
+(** the order of the code as found: the marker is the FIRST call of [_init_attrs] *)
+Definition dump_ops_v0 (p : wpath) (c : coll) : list op := marker_op :: body_ops p c.
 
 (** [HDF5Signatures.create] on a fresh group: the ids/length check (hdf5.py:202-205), then the calls *)
 Definition create (p : wpath) (c : coll) : sres store :=
   if Nat.eqb (ids_len c.(c_ids)) (length c.(c_sigs)) then run (dump_ops p c) empty_store else SErr EValue.
+
+(** the same for the order as found *)
+Definition create_v0 (p : wpath) (c : coll) : sres store :=
+  if Nat.eqb (ids_len c.(c_ids)) (length c.(c_sigs)) then run (dump_ops_v0 p c) empty_store else SErr EValue.
 
 (** ---- reading ------------------------------------------------------------------------------- *)
 
@@ -312,7 +327,7 @@ Definition magic : list Z := [137; 72; 68; 70; 13; 10; 26; 10].
 Definition list_eqb (a b : list Z) : bool :=
   (Nat.eqb (length a) (length b)) && forallb (fun p => fst p =? snd p) (combine a b).
 
-(** [load_signatures_hdf5] as it is in the repository (hdf5.py:231-254): header check, then
+(** [load_signatures_hdf5] as it is in the repository (hdf5.py:236-259): header check, then
     [h5.File(path)] (OSError on an unparsable file propagates), marker check [in h5file.attrs]
     (KeyError on an unreadable root group propagates), [HDF5Signatures] *)
 Definition load_file_cur (d : disk) : sres loaded :=
@@ -335,18 +350,30 @@ Definition load_file (d : disk) : sres loaded :=
 
 (** When do the calls made so far reach the disk?  [AtClose]: libhdf5 keeps the metadata (object
     headers, B-trees, superblock extension) in its cache until the file is closed, so a writer that
-    dies before [close] leaves a file [junk] that cannot be parsed ([unparsable junk = true]).
-    [Eager]: every call is flushed at once (what [flush()] after each call, or SWMR-like settings,
-    would give). *)
-Inductive policy := AtClose | Eager.
+    is KILLED before [close] leaves a file [junk] that cannot be parsed ([unparsable junk = true]).
+    [Eager]: every completed call is on the disk -- what [flush()] after each call, or SWMR-like
+    settings, would give, and ALSO what a writer that dies by an EXCEPTION leaves: the exception
+    unwinds through [with h5.File(path, 'w')], h5py closes the file cleanly and everything done so
+    far is flushed ([raised_disk]).  [FlushedAt k]: anything in between. *)
+Inductive policy :=
+| AtClose                 (* nothing parseable before close *)
+| Eager                   (* every completed call is on the disk *)
+| FlushedAt (k : nat).    (* the first [k] completed calls are on the disk (the writer -- or libhdf5 -- flushed after its
+                             [k]-th call and not again): every flush schedule is one of these *)
 
-(** the file left behind by a writer that completed exactly the calls [done] and then died *)
+(** the file left behind by a writer that completed exactly the calls [done] and then was killed *)
 Definition crash_disk (pol : policy) (junk : disk) (done : list op) : disk :=
   match pol with
   | AtClose => junk
   | Eager => match run done empty_store with SOk st => DHdf st | SErr _ => junk end
+  | FlushedAt k => match run (firstn k done) empty_store with SOk st => DHdf st | SErr _ => junk end
   end.
 
 (** the file after a write that ran to completion and closed the file *)
 Definition closed_disk (ops : list op) : sres disk :=
   sbind (run ops empty_store) (fun st => SOk (DHdf st)).
+
+(** the file left behind by a writer that RAISED (KeyboardInterrupt, SystemExit, MemoryError, an I/O
+    error of one call, an exception of the signature source) after completing exactly the calls [done]:
+    the context manager of [dump_signatures_hdf5] closed the file *)
+Definition raised_disk (done : list op) : sres disk := closed_disk done.
